@@ -147,8 +147,8 @@ def r2_template_equals_check(ctx):
         rets = [r for r in ast.walk(ck.node) if isinstance(r, ast.Return) and r.value is not None]
         if len(rets) != 1:
             continue
-        # product-like codegens (loops) are R3's business
-        if any(isinstance(x, (ast.For, ast.While)) for x in ast.walk(cg.node)):
+        # product-like codegens (loops / comprehensions over the parameters) are R3's business
+        if _product_like(c):
             continue
         want = _norm_eq(rets[0].value, rv)
         ctors = [x for x in ast.walk(cg.node) if isinstance(x, ast.Call) and call_name(x) == "CodeGen"]
@@ -172,74 +172,77 @@ def r2_template_equals_check(ctx):
     ctx.require(n >= 2, "expected template checks for the literal type and the regexp type")
 
 
+def _product_like(c):
+    cg = c.methods.get("codegen")
+    return cg is not None and any(isinstance(x, (ast.For, ast.While, ast.ListComp, ast.GeneratorExp, ast.DictComp)) for x in ast.walk(cg.node))
+
+
 def r3_product_types(ctx):
+    """Product types (tuple[...]): the emitted check and `check` are both interpreted on every tuple of length 2..4
+    over the element tags and compared with: same length, and every element an instance of its position's type."""
+    import itertools
+
+    from ..metainterp import HostInterp, Raised, Record
+
     base, subs = param_types(ctx)
-    prods = [c for c in subs if "codegen" in c.methods and any(isinstance(x, ast.For) for x in ast.walk(c.methods["codegen"].node))]
-    ctx.require(prods, "no product-like type (codegen with a loop over the parameters)")
+    prods = [c for c in subs if _product_like(c) and "check" in c.methods]
+    ctx.require(prods, "no product-like type (codegen built by a loop over the parameters)")
     for c in prods:
         cg = c.methods["codegen"]
         ck = c.methods["check"]
         ctx.touch(cg, ck)
-        rv = recv_name(cg)
-        # codegen: length test
-        # every fragment that goes into the list of checks, as a template
-        frags = []
-        for x in ast.walk(cg.node):
-            if isinstance(x, ast.Call) and isinstance(x.func, ast.Attribute) and x.func.attr in ("append", "extend") and x.args:
-                t = str_value(x.args[0], cg.node)
-                if t is not None:
-                    frags.append((t, x))
-            elif isinstance(x, ast.List):
-                for e in x.elts:
-                    t = str_value(e, cg.node)
-                    if t is not None:
-                        frags.append((t, e))
-        len_tpl = [t for t, _ in frags if re.search(r"len\(\{arg\}\)\s*==\s*\{(\w+)\}", t)]
-        ok_len = False
-        if len_tpl:
-            hole = re.search(r"len\(\{arg\}\)\s*==\s*\{(\w+)\}", len_tpl[0]).group(1)
-            for d in ast.walk(cg.node):
-                if isinstance(d, ast.Dict):
-                    for k, v in zip(d.keys, d.values):
-                        if isinstance(k, ast.Constant) and k.value == hole and isinstance(v, ast.Call) and call_name(v) == "len" and is_self_attr(v.args[0], "parameters", selfname=rv):
-                            ok_len = True
-                if isinstance(d, ast.Assign) and isinstance(d.targets[0], ast.Subscript) and isinstance(d.targets[0].slice, ast.Constant) and d.targets[0].slice.value == hole and isinstance(d.value, ast.Call) and call_name(d.value) == "len" and is_self_attr(d.value.args[0], "parameters", selfname=rv):
-                    ok_len = True
-                if isinstance(d, ast.Call) and call_name(d) == "CodeGen":
-                    for k in d.keywords:
-                        if k.arg == hole and isinstance(k.value, ast.Call) and call_name(k.value) == "len" and is_self_attr(k.value.args[0], "parameters", selfname=rv):
-                            ok_len = True
-        ctx.ob(f"{cg.key}:length-test", cg.loc(), "the emitted check tests the tuple's length against the number of element types", ok_len, "the generated tuple check has no length test: a longer or shorter tuple matches (or indexing fails)")
-        # codegen: one isinstance per index over the whole parameter list, joined by and
-        loops = [x for x in ast.walk(cg.node) if isinstance(x, ast.For)]
-        ok_loop = False
-        for lp in loops:
-            if isinstance(lp.iter, ast.Call) and call_name(lp.iter) == "enumerate" and is_self_attr(lp.iter.args[0], "parameters", selfname=rv):
-                i = dotted(lp.target.elts[0])
-                inloop = [t for t, node in frags if any(node is y for y in ast.walk(lp))]
-                if any(re.fullmatch(r"isinstance\(\{arg\}\[§%s§\], \{p§%s§\}\)" % (i, i), t) for t in inloop):
-                    ok_loop = True
-        joins = [x for x in ast.walk(cg.node) if isinstance(x, ast.Call) and isinstance(x.func, ast.Attribute) and x.func.attr == "join" and str_value(x.func.value) == " and "]
-        ctx.ob(f"{cg.key}:per-index-tests", cg.loc(), "the emitted check has one isinstance test per element index over the whole parameter list, joined by `and`", ok_loop and bool(joins), "the generated tuple check skips an element position or does not conjoin the element tests")
-        # check(): length equality and all(isinstance over zip(value, parameters))
+        params = ("T0", "T1", "T2")
+        tags = params + ("X",)
+        values = [v for k in (2, 3, 4) for v in itertools.product(tags, repeat=k) if k < 4 or v[:3] == params]
+        want = {v: len(v) == len(params) and all(a == b for a, b in zip(v, params)) for v in values}
+
+        def CodeGen(template, substitutions=None, **kw):
+            return Record(template=template, substitutions={**(substitutions or {}), **kw})
+
+        inst = lambda v, t: isinstance(v, t) if isinstance(t, type) else v == t  # noqa: E731
+        genv = {"CodeGen": CodeGen, "isinstance": inst}
+        me = Record(parameters=params, __args__=params, bound="tuple")
+        problems_cg = None
+        problems_ck = None
+        try:
+            hi = HostInterp({}, me, {}, globals_env=genv, classes={}, functions={})
+            res = hi.call_function(cg.node, [me], {}, {})
+            if not (isinstance(res, Record) and isinstance(getattr(res, "template", None), str)):
+                raise AnalysisError(f"{cg.key}: codegen did not build a CodeGen from a template")
+            subs_ = res.substitutions
+            try:
+                text = res.template.format(arg="ARG", **{k: f"SUB_{k}" for k in subs_})
+                expr = ast.parse(text, mode="eval").body
+            except (KeyError, IndexError, SyntaxError, ValueError) as e:
+                problems_cg = f"the emitted template `{res.template}` cannot be instantiated: {e}"
+                expr = None
+            if expr is not None:
+                for v in values:
+                    env = {"ARG": v, **{f"SUB_{k}": val for k, val in subs_.items()}}
+                    try:
+                        got = bool(HostInterp({}, Record(), {}, globals_env={"isinstance": inst}, classes={}, functions={}).ev(expr, env))
+                    except (IndexError, AnalysisError) as e:
+                        got = f"error {e}"
+                    if got != want[v] and problems_cg is None:
+                        problems_cg = f"for the value {v} against tuple[{', '.join(params)}] the emitted check `{text}` gives {got}, isinstance must give {want[v]}"
+        except (AnalysisError, Raised) as e:
+            raise AnalysisError(f"{cg.key}: not interpretable: {e}")
+        ctx.ob(
+            f"{cg.key}:emitted-check",
+            cg.loc(),
+            f"the emitted check accepts exactly the tuples of the right length whose every element is an instance of its position's type ({len(values)} tuples interpreted)",
+            problems_cg is None,
+            (problems_cg or "") + ": the generated tuple check has no length test, skips a position or does not conjoin the element tests",
+        )
         rv2 = recv_name(ck)
-        arg = [p for p in ck.params if p != rv2][0]
-        rets = [r for r in ast.walk(ck.node) if isinstance(r, ast.Return) and r.value is not None]
-        ok_ck = False
-        if len(rets) == 1:
-            ats = atoms(rets[0].value)
-            has_len = any(a[0] == "cmp" and a[1] == "Eq" and {src(a[2]), src(a[3])} == {f"len({arg})", f"len({rv2}.parameters)"} for a in ats)
-            has_all = False
-            for a in ats:
-                if a[0] == "truthy" and isinstance(a[1], ast.Call) and call_name(a[1]) == "all":
-                    ge = a[1].args[0]
-                    if isinstance(ge, (ast.GeneratorExp, ast.ListComp)):
-                        it = ge.generators[0].iter
-                        if isinstance(it, ast.Call) and call_name(it) == "zip" and [src(x) for x in it.args] == [arg, f"{rv2}.parameters"] and isinstance(ge.elt, ast.Call) and call_name(ge.elt) == "isinstance":
-                            x, t = [dotted(e) for e in ge.generators[0].target.elts]
-                            has_all = [dotted(z) for z in ge.elt.args] == [x, t]
-            ok_ck = has_len and has_all
-        ctx.ob(f"{ck.key}:length-and-elements", ck.loc(), "isinstance on the product type tests the length and every element against its own position's type", ok_ck, "the product type's check no longer tests both the length and every element position")
+        for v in values:
+            try:
+                got = bool(HostInterp({}, me, {}, globals_env={"isinstance": inst}, classes={}, functions={}).call_function(ck.node, [me, v], {}, {}))
+            except (AnalysisError, Raised) as e:
+                raise AnalysisError(f"{ck.key}: not interpretable: {e}")
+            if got != want[v] and problems_ck is None:
+                problems_ck = f"for the value {v} against tuple[{', '.join(params)}] `check` gives {got}, must give {want[v]}"
+        ctx.ob(f"{ck.key}:length-and-elements", ck.loc(), "isinstance on the product type tests the length and every element against its own position's type (interpreted)", problems_ck is None, (problems_ck or "") + ": the product type's check no longer tests both the length and every element position")
 
 
 def r4_connective_is_quantifier(ctx):
